@@ -148,6 +148,15 @@ def run(ctx, prop):
                  timeout=200 if ctx.quick else 1500)
     ctx.add_mc('Master.tla 2 servers 2 instances events<=%d cycles+restarts<=%d' % (me, mcyc), res,
                need_actions=['Crash', 'PubStep', 'Restart', 'Cycle', 'InitSchedule'])
+    if prop == 'C09':
+        # extension beyond the listed properties: Master._check_pending_start
+        pres = tlc.mc(mc.SPEC_DIR, 'MC_PendingStart', 'MC_PendingStart.cfg', coverage=True, workers=4,
+                      extra_cfg_text='CONSTANT MaxClock = %d' % (500 if ctx.quick else 900),
+                      timeout=200 if ctx.quick else 900)
+        ctx.add_mc('PendingStart.tla (extension: _check_pending_start)', pres,
+                   need_actions=['Check', 'Run', 'Tick'])
+        if pres['violated']:
+            ctx.log('PendingStart.tla: %s violated in the MODEL' % pres['violated'])
     hist = []
     scn = mc.SCENARIOS['base']
     if res['violated']:
@@ -173,6 +182,9 @@ def run(ctx, prop):
                 hist.append(('rnd-cut', hc))
     for _ in range(120 if ctx.quick else 1500):
         hist.append(('identity', mc.gen_identity(scn, rng, rng.choice([4, 6, 9]))))
+    if prop == 'C09':
+        for _ in range(60 if ctx.quick else 800):
+            hist.append(('pending', mc.gen_pending(scn, rng, rng.choice([6, 10]))))
     if prop == 'C10':
         for _ in range(30 if ctx.quick else 300):
             for hc in gen_failover(scn, rng):
@@ -205,6 +217,8 @@ def judge(ctx, prop, traces, verdicts):
         fails = set(v['fail'])
         if 'exc' in fails:
             ctx.skipped += 1
+        if any(f.startswith('ext.') for f in fails):
+            ctx.drift += 1
         evaluations += 1
         if prop in v['ex']:
             nontrivial.add(core.hist_hash(t['history']))
@@ -226,6 +240,10 @@ def judge(ctx, prop, traces, verdicts):
             break
     if not samples and traces:
         samples.append(dict(trace=traces[0]['tid'], history=[str(x) for x in traces[0]['history']]))
+    if ctx.drift:
+        print('DRIFT: %d recorded steps of behaviour modelled beyond the listed properties '
+              '(PendingStart.tla) are not steps of the model (spec needs updating; not a violation)'
+              % ctx.drift)
     if ctx.skipped:
         print('NOTE: %d steps raised an exception outside start-up (counted as skipped)' % ctx.skipped)
     return core.conclude(
